@@ -581,3 +581,36 @@ func isLoopHeader(b *ssa.BasicBlock) bool {
 	}
 	return false
 }
+
+// callsReaching lists the call sites in fn that reach target: calls of target itself, and
+// calls of repo functions from which target is reachable through at most depth further
+// static calls (a wrapper around target counts as target).
+func (w *World) callsReaching(fn, target *ssa.Function, depth int) []ssa.CallInstruction {
+	var reaches func(g *ssa.Function, d int, seen map[*ssa.Function]bool) bool
+	reaches = func(g *ssa.Function, d int, seen map[*ssa.Function]bool) bool {
+		if g == target {
+			return true
+		}
+		if d == 0 || seen[g] || !w.InRepo(g) {
+			return false
+		}
+		seen[g] = true
+		for _, ci := range callsIn(g) {
+			if h := callee(ci); h != nil && reaches(h, d-1, seen) {
+				return true
+			}
+		}
+		return false
+	}
+	var out []ssa.CallInstruction
+	for _, ci := range callsIn(fn) {
+		g := callee(ci)
+		if g == nil || g == fn {
+			continue
+		}
+		if reaches(g, depth, map[*ssa.Function]bool{fn: true}) {
+			out = append(out, ci)
+		}
+	}
+	return out
+}
